@@ -14,10 +14,6 @@ theorem pin_scipy_solver_solve_scipy_anchor : pin_scipy_solver_solve_scipy = "e7
 theorem pin_lp_solver_solve_lp_anchor : pin_lp_solver_solve_lp = "244fed8ae6b2b560" := rfl
 /-- `compile_expression` (core/compiler.py) -/
 theorem pin_compiler_compile_expression_anchor : pin_compiler_compile_expression = "db0179ead8cd3aa4" := rfl
-/-- `_compile_cached` (core/compiler.py) -/
-theorem pin_compiler_compile_cached_anchor : pin_compiler_compile_cached = "4ab132ae0ee10316" := rfl
-/-- `_estimate_tree_depth` (core/compiler.py) -/
-theorem pin_compiler_estimate_tree_depth_anchor : pin_compiler_estimate_tree_depth = "6602d5290a7341a7" := rfl
 /-- `_param_value` (core/compiler.py) -/
 theorem pin_compiler_param_value_anchor : pin_compiler_param_value = "79e7de7cdae81265" := rfl
 /-- `compile_to_dict_function` (core/compiler.py) -/
@@ -34,7 +30,7 @@ theorem pin_constraints_Constraint_get_variables_anchor : pin_constraints_Constr
 theorem pin_constraints_make_constraint_anchor : pin_constraints_make_constraint = "f94a0d73e3549836" := rfl
 
 /-- every function the model of C06 transcribes (and no translator covers) is the one it was read from -/
-theorem anchors : pin_scipy_solver_solve_scipy = "e7c69a3a73fa09d9" ∧ pin_lp_solver_solve_lp = "244fed8ae6b2b560" ∧ pin_compiler_compile_expression = "db0179ead8cd3aa4" ∧ pin_compiler_compile_cached = "4ab132ae0ee10316" ∧ pin_compiler_estimate_tree_depth = "6602d5290a7341a7" ∧ pin_compiler_param_value = "79e7de7cdae81265" ∧ pin_compiler_compile_to_dict_function = "9c1b94dcff42b825" ∧ pin_compiler_CompiledExpression = "46e07aadf48eb02a" ∧ pin_analysis_extract_linear_coefficient = "8356a37b6239dea1" ∧ pin_analysis_extract_constant_term = "56af33ef128b1672" ∧ pin_constraints_Constraint_get_variables = "1984ddae9519490c" ∧ pin_constraints_make_constraint = "f94a0d73e3549836" :=
-  ⟨pin_scipy_solver_solve_scipy_anchor, pin_lp_solver_solve_lp_anchor, pin_compiler_compile_expression_anchor, pin_compiler_compile_cached_anchor, pin_compiler_estimate_tree_depth_anchor, pin_compiler_param_value_anchor, pin_compiler_compile_to_dict_function_anchor, pin_compiler_CompiledExpression_anchor, pin_analysis_extract_linear_coefficient_anchor, pin_analysis_extract_constant_term_anchor, pin_constraints_Constraint_get_variables_anchor, pin_constraints_make_constraint_anchor⟩
+theorem anchors : pin_scipy_solver_solve_scipy = "e7c69a3a73fa09d9" ∧ pin_lp_solver_solve_lp = "244fed8ae6b2b560" ∧ pin_compiler_compile_expression = "db0179ead8cd3aa4" ∧ pin_compiler_param_value = "79e7de7cdae81265" ∧ pin_compiler_compile_to_dict_function = "9c1b94dcff42b825" ∧ pin_compiler_CompiledExpression = "46e07aadf48eb02a" ∧ pin_analysis_extract_linear_coefficient = "8356a37b6239dea1" ∧ pin_analysis_extract_constant_term = "56af33ef128b1672" ∧ pin_constraints_Constraint_get_variables = "1984ddae9519490c" ∧ pin_constraints_make_constraint = "f94a0d73e3549836" :=
+  ⟨pin_scipy_solver_solve_scipy_anchor, pin_lp_solver_solve_lp_anchor, pin_compiler_compile_expression_anchor, pin_compiler_param_value_anchor, pin_compiler_compile_to_dict_function_anchor, pin_compiler_CompiledExpression_anchor, pin_analysis_extract_linear_coefficient_anchor, pin_analysis_extract_constant_term_anchor, pin_constraints_Constraint_get_variables_anchor, pin_constraints_make_constraint_anchor⟩
 
 end Optyx.Props.PinsC06
